@@ -32,6 +32,9 @@ SUB_PROVEN = {("next_write", "(tail - self->head)"), ("next_write", "(self->capa
               ("channel_read_map", "(self->head - *pos)")}
 
 
+from .report import memoised as _memoised
+
+
 def is_cursor(key, st):
     return key.endswith(CURSOR_SUFFIX) or "holds.pos[" in key or key.endswith("reader->pos") or \
         st.alias.get(key, "").endswith("holds.pos")
@@ -122,6 +125,7 @@ def _roles(prog):
     return r
 
 
+@_memoised
 def rule_linear(prog, res, rule="R-LIN"):
     ROLE = _roles(prog)
     col = Collector()
@@ -563,6 +567,7 @@ def rule_available(prog, res, rule="R-LIN"):
         res.oblige(rule, inst, True, "%d return state(s)" % len(rets), f.loc())
 
 
+@_memoised
 def rule_reader_ops(prog, res, rule="R-LIN"):
     """channel_read_map / channel_read_unmap, beyond READ:
     OVF   the overflow error is raised only when the hold cursor is neither in
@@ -621,6 +626,11 @@ def rule_reader_ops(prog, res, rule="R-LIN"):
         kp, pos = cur(st, h, hp, "pos")
         kc, cyc = cur(st, h, hp, "cycle")
         if pos is None or cyc is None:
+            # no hold cursor yet: the only legitimate error is the refusal of a reader for which no slot is left
+            from .channelrules import hold_slots
+            nn, idv = an.read(st, "self->holds.n"), an.read(st, "reader->id")
+            if nn is not None and idv is not None and st.entails_le(L.lsub(L.lconst(hold_slots(prog)), nn)) and st.entails_le(idv):
+                continue
             problems.append(("ovf", "the overflow error is raised without reading the hold cursor"))
             continue
         head = an.read(st, "self->head")
